@@ -21,14 +21,14 @@ Inductive case :=
        (doc : tsdoc)
        (sruns : list (sopts * res (list wop)))            (* SchemaTypePrinter::print_document *)
        (rruns : list (ropts * nat * res (list wop)))      (* ResolverTypePrinter::print_document, n model plugins *)
-| CJsdoc (d : str) (out : list wop).                      (* jsdoc::print_description *)
+| CJsdoc (items : list (str * list wop)).                 (* jsdoc::print_description on each string *)
 
 Definition agree (c : case) : bool :=
   match c with
   | CDoc _ doc sruns rruns =>
       forallb (fun r => res_eqb (print_schema (fst r) doc) (snd r)) sruns
       && forallb (fun r => res_eqb (print_resolvers (fst (fst r)) (snd (fst r)) doc) (snd r)) rruns
-  | CJsdoc d out => wops_eqb (print_description d) out
+  | CJsdoc items => forallb (fun i => wops_eqb (print_description (fst i)) (snd i)) items
   end.
 
 Definition holds (c : case) : bool := true.
@@ -51,5 +51,5 @@ Definition diagnose (c : case) :=
   | CDoc _ doc sruns rruns =>
       map (fun r => diff_res (print_schema (fst r) doc) (snd r)) sruns
       ++ map (fun r => diff_res (print_resolvers (fst (fst r)) (snd (fst r)) doc) (snd r)) rruns
-  | CJsdoc d out => [first_diff (coalesce (print_description d)) (coalesce out)]
+  | CJsdoc items => map (fun i => first_diff (coalesce (print_description (fst i))) (coalesce (snd i))) items
   end.
